@@ -205,7 +205,7 @@ class SourceIndex:
                 if fn.endswith(".py"):
                     self._load(os.path.join(dirpath, fn))
         if self.normalize:
-            from sa.normalize import normalize_module, recover_function_renames
+            from sa.normalize import new_module_level_helpers, normalize_module, recover_function_renames
 
             glog: list[str] = []
             try:
@@ -214,10 +214,11 @@ class SourceIndex:
                 pass
             if glog:
                 self.normalization_log["<package>"] = glog
+            foreign = new_module_level_helpers({n: m.tree for n, m in self.modules.items()})
             for name, m in self.modules.items():
                 log: list[str] = []
                 try:
-                    m.tree = normalize_module(m.tree, name, log)
+                    m.tree = normalize_module(m.tree, name, log, foreign)
                 except RecursionError:  # pragma: no cover
                     m.tree = ast.parse(m.source, filename=m.path)
                 if log:
